@@ -119,6 +119,14 @@ CHECKS.append({
     "technique": "Coq proof (simulation on the macro expander model; corollaries of the slot model) + cross-target comparison on the implementation",
 })
 
+CHECKS.append({
+    "property_id": "C04",
+    "text": "Coq theorems for each link of the fixpoint: (names) on a model of the front end's qualified-name lookup and of the exporters' decision to anchor a path with `::`, every emitted path resolves from its use site (any namespace, any stack of local frames) to the symbol it was emitted for, while the never-anchored path of the unrepaired exporter is captured (witness); the name map of the emitted program is the identity (every name already unique and unreserved is kept, nothing is generated again); (slots) declarations printed with their group explicit get the same slots and inline blocks whatever the default group, and under the DirectX parameter record (read from src/compile.rs) whatever object kind they are re-spelt as; (expressions, literals) the C09 round trip and the C10 exactness theorems. On the implementation every entry point of the third-party corpus, every repository source and generated programs using every declaration kind are compiled for DirectX without pipelines, the output is compiled again, and acceptance, byte equality and the slot of every resource are compared.",
+    "design_ref": "DESIGN.md §4 C04",
+    "note": "Partial: the end-to-end equality is observed, not proved; the theorems cover name resolution, the name map, slot assignment, expression syntax and literals. One known finding (comparison chains read as template arguments, shared with C09).",
+    "technique": "Coq proof (lookup/anchoring model, name-map and slot idempotence, C09/C10 corollaries) + double-compilation fixpoint check on corpus and generated programs",
+})
+
 _claimed = {c["property_id"] for c in CHECKS}
 NOT_APPLICABLE = [
     {"property_id": p, "reason": "not yet claimed: model/theorems under construction (see DESIGN.md build order); no check registered until it passes on the unchanged tree"}
